@@ -14,22 +14,54 @@ def showCalls (cs : List (Bool × Method)) : String :=
 
 def onOff (s : String) : Bool := s == "1"
 
+def showUnit : GoResult Unit → String
+  | .ok _ => "ok"
+  | .err => "err"
+  | .panic => "panic"
+
+def showListing : GoResult (List (Nat × Nat)) → String
+  | .ok l => "list " ++ joinWith "," ((l.mergeSort (fun a b => a.1 ≤ b.1)).map fun e => s!"{e.1}:{e.2}")
+  | .err => "err"
+  | .panic => "panic"
+
+def showOut : Out → String
+  | .unit r => showUnit r
+  | .listing r => showListing r
+  | .env => "ok"
+
+/-- the non-download methods a fault can be injected into -/
+def methodOf : String → Option Method
+  | "UploadSegment" => some .uploadSegment | "UploadIndex" => some .uploadIndex
+  | "DeleteSegment" => some .deleteSegment | "DeleteIndex" => some .deleteIndex
+  | "ListSegments" => some .listSegments | "EnsureBucket" => some .ensureBucket
+  | _ => none
+
+def faultOf : String → Option Fault
+  | "none" => some .none | "once" => some .once | "always" => some .always
+  | _ => none
+
+/-- a write/list/ensure call through the dual client: result, backend calls, and (`pans=`) what the primary
+backend itself answers to that call -/
+def callLine (s : State) (op : Op) (c : Call) (pans : String) : State × String :=
+  let r := stepOut s op
+  (r.1, showOut r.2 ++ showCalls (backendCalls s c) ++ " pans=" ++ pans.replace " " ":")
+
 def pr (r : GoResult Bytes) : String := (showRes r).replace " " ":"
 
 def stepLine (s : State) (ws : List String) : State × String :=
   match ws with
   | ["new"] => (State.init, "ok")
   | ["upseg", k, hx] => match k.toNat?, fromHex hx with
-    | some k, some b => (step s (.upSeg k b), "ok" ++ showCalls (backendCalls s (.upSeg k)))
+    | some k, some b => callLine s (.upSeg k b) (.upSeg k) (showUnit (s.pri.uploadSegment k b).2)
     | _, _ => (s, "bad-op")
   | ["upidx", k, hx] => match k.toNat?, fromHex hx with
-    | some k, some b => (step s (.upIdx k b), "ok" ++ showCalls (backendCalls s (.upIdx k)))
+    | some k, some b => callLine s (.upIdx k b) (.upIdx k) (showUnit (s.pri.uploadIndex k b).2)
     | _, _ => (s, "bad-op")
   | ["delseg", k] => match k.toNat? with
-    | some k => (step s (.delSeg k), "ok" ++ showCalls (backendCalls s (.delSeg k)))
+    | some k => callLine s (.delSeg k) (.delSeg k) (showUnit (s.pri.deleteSegment k).2)
     | none => (s, "bad-op")
   | ["delidx", k] => match k.toNat? with
-    | some k => (step s (.delIdx k), "ok" ++ showCalls (backendCalls s (.delIdx k)))
+    | some k => callLine s (.delIdx k) (.delIdx k) (showUnit (s.pri.deleteIndex k).2)
     | none => (s, "bad-op")
   | ["replseg", k] => match k.toNat? with
     | some k => (step s (.replSeg k), "ok")
@@ -79,10 +111,15 @@ def stepLine (s : State) (ws : List String) : State × String :=
     | some k => (s, showRes (dualReadIdx s k) ++ showCalls (backendCalls s (.rdIdx k)) ++ " pri=" ++
         (showRes (s.pri.readIdx k)).replace " " ":")
     | none => (s, "bad-op")
-  | ["list"] =>
-    let l := (dualList s).mergeSort (fun a b => a.1 ≤ b.1)
-    (s, "list " ++ joinWith "," (l.map fun e => s!"{e.1}:{e.2}") ++ showCalls (backendCalls s .list))
-  | ["ensure"] => (s, "ok" ++ showCalls (backendCalls s .ensure))
+  | ["list"] => callLine s .list .list (showListing s.pri.listSegments.2)
+  | ["ensure"] => callLine s .ensure .ensure (showUnit s.pri.ensureBucket.2)
+  | ["popfail", m, f] => match methodOf m, faultOf f with
+    | some m, some f => (step s (.pOpFail m f), "ok")
+    | _, _ => (s, "bad-op")
+  | ["ropfail", m, f] => match methodOf m, faultOf f with
+    | some m, some f => (step s (.rOpFail m f), "ok")
+    | _, _ => (s, "bad-op")
+  | ["restore"] => (s, "skip")
   | _ => (s, "bad-op")
 
 def main : IO Unit := runLines State.init stepLine
